@@ -535,7 +535,8 @@ fn gen_x(rng: &mut Rng) -> (f64, &'static str) {
         3 => ((1u64 << rng.below(43)) as f64, "power_of_two"),
         4 => (rng.below(1 << 43) as f64 + rng.f64(), "random_large"),
         5 => (rng.f64() * 100.0, "random_small"),
-        6 => (0.0, "zero"),
+        // (either zero: equal as numbers, so they are one value - peeked, so that no draw moves)
+        6 => (if rng.clone().next_u64() % 2 == 0 { 0.0 } else { -0.0 }, "zero"),
         7 => ((1u64 << 43) as f64 - 1.0 - rng.below(1000) as f64, "near_2_43"),
         8 => (*rng.pick(&[5e-324, 1e-300, 2.2e-16, 1e-9, 0.1 + 0.2, 0.3]), "tiny_or_inexact"),
         _ => (rng.below(100_000) as f64 / 8.0, "random_mid"),
@@ -554,7 +555,7 @@ pub fn gen_c11(rng: &mut Rng, tier: Tier) -> Value {
     let mut pool: Vec<(f64, &'static str)> = (0..(2 + rng.below(6))).map(|_| gen_x(rng)).collect();
     // neighbours in floating point: distinct values one ulp apart must stay distinct
     if matches!(ty, "f64" | "rep" | "multi") && rng.chance(0.5) {
-        let (x, _) = pool[0];
+        let x = pool[0].0.abs();
         pool.push((f64::from_bits(x.to_bits() + 1), "adjacent_floats"));
         if x > 0.0 {
             pool.push((f64::from_bits(x.to_bits() - 1), "adjacent_floats"));
